@@ -205,6 +205,10 @@ def apply(project, label, mj):
             # no type change)
             f['type'] = ftype
             f['attrs'] = {}
+            # (the mutation names Django's own class)
+            f.pop('sub', None)
+        elif ftype and f.get('sub'):
+            raise Disabled('restated type on a project-specific class')
         for k, v in attrs.items():
             if k == 'db_index' and f['type'] in ('FK', 'O2O'):
                 # relations are indexed by default: False is the explicit
